@@ -12,11 +12,13 @@ import (
 
 	"verif/internal/evid"
 	"verif/props/c01"
+	"verif/props/c03"
 	"verif/props/c05"
 	"verif/props/c06"
 	"verif/props/c11"
 	"verif/props/c12"
 	"verif/props/c13"
+	"verif/props/c16"
 )
 
 type prop struct {
@@ -27,11 +29,13 @@ type prop struct {
 
 var props = map[string]prop{
 	"C01": {"exploration", c01.Run, c01.Replay},
+	"C03": {"exploration", c03.Run, c03.Replay},
 	"C05": {"fault_enumeration", c05.Run, c05.Replay},
 	"C06": {"model_checking", c06.Run, c06.Replay},
 	"C11": {"exploration", c11.Run, c11.Replay},
 	"C12": {"exploration", c12.Run, c12.Replay},
 	"C13": {"exploration", c13.Run, c13.Replay},
+	"C16": {"model_checking", c16.Run, c16.Replay},
 }
 
 var ballast []byte
